@@ -5,6 +5,7 @@ import RbV.Model.Horspool
 import RbV.Model.Kmp
 import RbV.Model.Bndm
 import RbV.Model.Bom
+import RbV.Lemmas.BomOracle
 /-!
 # C08 — exact matchers return exactly all occurrences
 
@@ -84,22 +85,59 @@ theorem bndm_exact (p t : List Nat) (hp : 0 < p.length) (hm : p.length ≤ 64) :
 
 example : Bndm.findAll [1, 2, 1] [1, 2, 1, 2, 1] = some [0, 2] := by decide
 
-/-- **BOM, partial.** Full statement wanted: `∀ p t, 0 < p.length → Bom.findAll p t = occurrences p t`.
-Proved: the *search* (mirror model of the window loop of `bom.rs`: backward scan through the oracle, the
-`m + 2 - j` shift, the report) is exact on **every text** for every pattern whose oracle table — as built by the
-mirror model of `BOM::new` — satisfies two decidable conditions (`completeB`: every factor of the pattern is accepted
-when read backwards; `monotoneB`: transitions go strictly upwards, at most to state `m`, and `q → q+1` only on the
-`q`-th symbol of the reversed pattern). Missing: that the construction establishes the two conditions for *every*
-pattern (the factor-oracle theorem of Allauzen–Crochemore–Raffinot). The driver evaluates both conditions for each
-pattern of the correspondence run (tag `bom-table-ok`), so for every tested pattern the model's search is proved
-correct on all texts. -/
-theorem bom_exact_partial (p t : List Nat) (hp : 0 < p.length)
-    (hC : Bom.completeB (Bom.build p) p = true) (hM : Bom.monotoneB (Bom.build p) p.reverse = true) :
-    Bom.findAll p t = occurrences p t :=
-  Bom.findAll_eq_occurrences_of_table p t hp hC hM
+/-- **BOM** (mirror model of `bom.rs`: the online factor-oracle construction of `BOM::new` over the reversed pattern
+— inner transition, the `while let Some(k_) = k` climb along the supply links `suff`, `suff[i]` — and the window
+loop of `Matches::next`: backward scan through the oracle, the `m + 2 - j` shift, the report) yields exactly the
+oracle's list for every non-empty pattern and every text. The proof has two halves: the search loop is exact for
+every table that accepts all factors of the pattern and whose transitions go strictly upwards
+(`Bom.findAll_eq_occurrences_of_table`), and the construction establishes both conditions for every pattern
+(`bom_oracle_accepts_factors`, `bom_table_conditions`, proved in `RbV/Lemmas/BomOracle.lean`). -/
+theorem bom_exact (p t : List Nat) (hp : 0 < p.length) : Bom.findAll p t = occurrences p t :=
+  Bom.findAll_eq_occurrences p t hp
 
-example : Bom.completeB (Bom.build [1, 2, 1, 1, 2]) [1, 2, 1, 1, 2] = true ∧
-    Bom.monotoneB (Bom.build [1, 2, 1, 1, 2]) [1, 2, 1, 1, 2].reverse = true := by decide
+/-- **Factor-oracle theorem** (Allauzen–Crochemore–Raffinot 1999, "the oracle accepts at least the factors") for
+the table built by the mirror model of `BOM::new`: every factor `y` of the reversed pattern is accepted from
+state 0. -/
+theorem bom_oracle_accepts_factors (p x y z : List Nat) (h : p.reverse = x ++ y ++ z) :
+    Bom.runT (Bom.build p) 0 y ≠ none := by
+  obtain ⟨suff, hinv⟩ := Bom.build_inv p
+  exact hinv.accepts_factor x y z h
+
+/-- every transition `q --a--> q'` of the built oracle goes strictly upwards, at most to state `m`, and a
+transition `q → q+1` is labelled with the `q`-th symbol of the reversed pattern. -/
+theorem bom_oracle_monotone (p : List Nat) (q a q' : Nat) (h : Bom.delta (Bom.build p) q a = some q') :
+    q < q' ∧ q' ≤ p.length ∧ (q' = q + 1 → p.reverse[q]? = some a) := by
+  have := Bom.monotoneB_sound _ _ (Bom.build_monotone p) q a q' h
+  simpa using this
+
+/-- the two decidable table conditions that the driver evaluates per tested pattern (tag `bom-table-ok`) hold
+for **every** pattern; the evaluation in the driver is a cross-check of model and proof, no longer a hypothesis. -/
+theorem bom_table_conditions (p : List Nat) :
+    Bom.completeB (Bom.build p) p = true ∧ Bom.monotoneB (Bom.build p) p.reverse = true :=
+  ⟨Bom.build_complete p, Bom.build_monotone p⟩
+
+/-- `BOM::new` takes no panicking branch: in the variant `buildS` of the model in which an out-of-bounds
+`table[k_]`, a read of a `suff` entry that was never written, and `.unwrap()` of an absent transition are failures
+(as is running out of the model's loop fuel), the construction succeeds for every pattern and gives the same table —
+so `bom_exact` does not rest on the totalised defaults (`getD`, `[_]?`) of the model. (The empty pattern is refused
+by `BOM::new` before the loop: `expect("Expecting non-empty pattern.")`; the harness never sends it.) -/
+theorem bom_construction_total (p : List Nat) : Bom.buildS p = some (Bom.build p) :=
+  Bom.buildS_eq_build p
+
+/-- **BOM, with the panics of the Rust code explicit.** `Bom.findAllS` is the variant of the mirror model in which
+the construction fails where `BOM::new` would panic (see `bom_construction_total`) and the search indexes the text
+exactly as `Matches::next` does — `text[window - j]`, `window - m`, `m + 2 - j` in `usize`, failing on underflow or
+an out-of-bounds index (and on exhausted loop fuel). It never fails and returns exactly the oracle's list, for every
+non-empty pattern and every text. -/
+theorem bom_exact_no_panic (p t : List Nat) (hp : 0 < p.length) : Bom.findAllS p t = some (occurrences p t) :=
+  Bom.findAllS_eq_occurrences p t hp
+
+example : Bom.findAllS [1, 2, 1] [1, 2, 1, 2, 1] = some [0, 2] := by decide
 example : Bom.findAll [1, 2, 1] [1, 2, 1, 2, 1] = [0, 2] := by decide
+example : Bom.build [1, 2, 1, 1, 2] =
+    [[(1, 2), (2, 1)], [(1, 2)], [(2, 4), (1, 3)], [(2, 4)], [(1, 5)]] := by decide
+-- the oracle of `abbbaab` (the pattern is its reverse) accepts `aba`, which is not a factor: the converse of
+-- `bom_oracle_accepts_factors` is false, which is why the search needs `bom_oracle_monotone` for the full window
+example : Bom.runT (Bom.build [2, 1, 1, 2, 2, 2, 1]) 0 [1, 2, 1] = some 5 := by decide
 
 end RbV.Thm.C08
